@@ -10,9 +10,9 @@ ENGINE_TB = [
 PROPS = {}
 
 
-def prop(pid, modules, level, technique, text, note, trusted=(), explanation="", design_ref=""):
+def prop(pid, modules, level, technique, text, note, trusted=(), explanation="", design_ref="", bounded=None):
     PROPS[pid] = dict(modules=modules, level=level, technique=technique, text=text, note=note,
-                      trusted_base=ENGINE_TB + list(trusted), explanation=explanation, design_ref=design_ref)
+                      trusted_base=ENGINE_TB + list(trusted), explanation=explanation, design_ref=design_ref, bounded=bounded)
     register(pid, *modules)
 
 
@@ -32,4 +32,19 @@ NOT_APPLICABLE = {pid: NOT_BUILT for pid in ["C%02d" % i for i in range(1, 20)]}
 NOT_APPLICABLE["C13"] = (
     "process-level property (exit status of python -m cobald.daemon, SIGINT delivery, log output, and 'keeps all of them alive' = garbage-collector "
     "reachability of the configured objects): no function contract can express heap lifetime or process semantics; its sequential ingredients are proved under C01/C05/C14/C18"
+)
+
+prop(
+    "C08",
+    ["contracts.c08_controllers"],
+    "proof",
+    "contract-based deductive verification: contracts on the real regulate/__init__/selection functions, loop invariants for rule and slave selection, VCs from the AST discharged by z3/cvc5",
+    "direction, amount and exactly-once delegation are postconditions proved for all pool states, parameters, intervals and tables of any length (selection loops by inductive invariants over the table)",
+    "trusted: pyvc's Python semantics, floats as reals, well-behaved pool, slaved controllers/rules as abstract callables; constructor-established table invariants as stated per function in the evidence",
+    trusted=["hypothesis: the target pool stores demand faithfully and reading its attributes is pure",
+             "hypothesis: slaved controllers and rules are arbitrary callables (one event per call)",
+             "BOUNDED (not proved): RangeSelector._compile_lookup and DemandSwitch.__init__ establish the table invariants (lookup_inv / ascending) - exhaustive native enumeration of small tables, see coverage.bounded",
+             "assumed: trio.sleep(d) advances trio's clock by exactly d or raises Cancelled"],
+    design_ref="5/C08",
+    bounded="bounded.c08_tables",
 )
